@@ -110,4 +110,10 @@ elif stage == "2":
         out = list(ex.map(stage2, todo))
     json.dump(dict(checked=out, nocontract=nocontract), open(mutdir + "/stage2.json", "w"), indent=0)
     print("caught", sum(1 for o in out if o["caught"]), "missed", sum(1 for o in out if not o["caught"]))
+elif stage == "2b":
+    todo = json.load(open(mutdir + "/stage1b.json"))
+    with ThreadPoolExecutor(jobs) as ex:
+        out = list(ex.map(stage2, todo))
+    json.dump(dict(checked=out), open(mutdir + "/stage2b.json", "w"), indent=0)
+    print("caught", sum(1 for o in out if o["caught"]), "missed", sum(1 for o in out if not o["caught"]))
 shutil.rmtree(SCR, ignore_errors=True)
